@@ -467,11 +467,55 @@ def nshards(tier):
     return 32
 
 
+def check_long_lived(acc, tree):
+    """A long-lived process: a static application behind the bundled StatsMiddleware has served more files than the
+    statistics keep samples for (2**14 per route and status).  The next downloads - under every position the
+    sampling can draw, the random source is a scripted seam - still deliver the files."""
+    import clastic.middleware.stats as st
+    from clastic import Application, StaticApplication
+    from clastic.middleware.stats import StatsMiddleware
+
+    class Script(object):
+        value = None
+
+        def random(self):
+            if self.value is None:
+                return 0.0
+            return self.value
+    script = Script()
+    orig = st.random
+    st.random = script
+    try:
+        app = Application([('/s', StaticApplication([os.path.join(tree.base, 'root')]))], middlewares=[StatsMiddleware()])
+        want = wsgi.call(app, '/s/a.txt', 'GET')
+        n_fill = 2 ** 14 + 3
+        for _ in range(n_fill):
+            app(wsgi.make_environ('/s/a.txt'), lambda s, h, e=None: None)
+        acc.transitions += n_fill
+        total = n_fill + 1
+        # every slot the next add may draw (0 .. total inclusive), in particular the ones at and next to the capacity
+        for idx in (0, 1, 2 ** 14 - 1, 2 ** 14, 2 ** 14 + 1, total - 1, total, total + 1):
+            script.value = min(0.999999999, (idx + 0.5) / float(total + 2))
+            res = wsgi.call(app, '/s/a.txt', 'GET')
+            total += 1
+            acc.transitions += 1
+            acc.validated += 1
+            if res.raised is not None or res.code != 200 or res.body != want.body:
+                acc.violation('C14:long-lived:%s' % (res.code,), 'after %d downloads through StatsMiddleware the next one (random '
+                              'position %d) answered %s %r' % (total, idx, res.status, res.raised), {'kind': 'long-lived'})
+                return
+        acc.outcome('long-lived|ok')
+    finally:
+        st.random = orig
+
+
 def shard(tier, i, n, seed):
     common.setup_repo()
     acc = common.Acc()
     tree = Tree()
     acc.outcome('tz|' + common.set_tz(i))
+    if i == 3 % n:
+        check_long_lived(acc, tree)
     try:
         counter = [0]
         for ci, cfg in enumerate(configs(tier)):
@@ -517,6 +561,13 @@ def replay(case):
 def _replay(case):
     common.setup_repo()
     tree = Tree()
+    if case.get('kind') == 'long-lived':
+        try:
+            acc = common.Acc()
+            check_long_lived(acc, tree)
+            return (False, acc.violations[0]['desc']) if acc.violations else (True, 'ok')
+        finally:
+            tree.cleanup()
     try:
         cfg = tuple(case['cfg'])
         w = World(tree, *cfg)
